@@ -4,6 +4,7 @@ import (
 	"math/rand/v2"
 	"reflect"
 	"runtime"
+	"sync"
 )
 
 // Locker is satisfied by *sync.Mutex and *sync.RWMutex.
@@ -309,4 +310,58 @@ func After1[T any](site int, v T) T {
 func After2[A, B any](a A, b B) (A, B) {
 	Yield(HarnessSite("lib-return"))
 	return a, b
+}
+
+// LibToken is the handle between LibEnter and After1L.
+type LibToken struct {
+	site int
+	m    *sync.Mutex
+}
+
+// libKey maps a library object to the connection whose internal mutex its
+// blocking methods take (go-stomp: Conn.closeMutex, reached from Conn and from
+// Subscription methods alike).
+func libKey(recv any) uintptr {
+	v := reflect.ValueOf(recv)
+	if v.Kind() != reflect.Pointer || v.IsNil() {
+		return 0
+	}
+	if e := v.Elem(); e.Kind() == reflect.Struct {
+		if f := e.FieldByName("conn"); f.IsValid() && f.Kind() == reflect.Pointer && !f.IsNil() && f.Type().Elem().Kind() == reflect.Struct && f.Type().Elem().Name() == "Conn" {
+			return f.Pointer()
+		}
+	}
+	return v.Pointer()
+}
+
+// LibEnter precedes (as the first argument of After1L, hence evaluated first)
+// a library call that takes a library-internal sync.Mutex and may block while
+// holding it (go-stomp's sendFrame hands the frame to an unbuffered channel
+// under Conn.closeMutex). A second task entering the same connection would
+// block on that real mutex, which synctest does not regard as durably blocked:
+// the simulated twin of the mutex makes it wait inside the simulator instead.
+func LibEnter(site int, recv any) LibToken {
+	s := cur()
+	if s == nil {
+		return LibToken{site: site}
+	}
+	k := libKey(recv)
+	s.mu.Lock()
+	m := s.libLocks[k]
+	if m == nil {
+		m = new(sync.Mutex)
+		s.libLocks[k] = m
+	}
+	s.mu.Unlock()
+	s.lockLoop(s.me(site), site, m, m.TryLock, true)
+	return LibToken{site: site, m: m}
+}
+
+// After1L is After1 for a call preceded by LibEnter.
+func After1L[T any](tok LibToken, v T) T {
+	if tok.m != nil {
+		Unlock(tok.site, tok.m)
+	}
+	Yield(tok.site)
+	return v
 }
